@@ -1,7 +1,7 @@
 SPECIFICATION Spec
 CONSTANTS
   OptToks <- Opt_All
-  MaxOpts = 4
+  MaxOpts = 3
   Ops <- AllOps
   Dev <- AsBuilt
 INVARIANTS Idempotent NilIsNeutral FamiliesAgree OptionsMeanWhatTheySay
